@@ -39,7 +39,9 @@ def drive(ctx):
             # local readings: inside the anomaly, just outside, noon of that day, noon the day after
             day0 = ws - ws % 86400
             locals_ = [(ws, 0), ((ws + we) // 2, 5), (we - 1, 999999), (we, 0), (ws - 1, 999999),
-                       (day0 + 43200, 0), (day0 + 86400 + 43200, 0), (day0 - 43200, 0)]
+                       (day0 + 43200, 0), (day0 + 86400 + 43200, 0), (day0 - 43200, 0),
+                       # earlier and later days of the same week (the week walks day by day through the anomaly)
+                       (day0 - 86400 * 3 + 40000, 0), (day0 - 86400 * 5 + 3000, 7), (day0 + 86400 * 4 + 50000, 0)]
             for (ls, us) in (pick(rnd, locals_, 4) if q else locals_):
                 w = wall_of_localsec(ls, us)
                 if not (103 < w[0] < 9897):
@@ -53,8 +55,9 @@ def drive(ctx):
                     conv = ctx.emit("in_tz", {"tz": zr}, [utc_dt(sec_to_i3(utc_sec, us))])
                     if not isinstance(conv, Exception):
                         srcs.append(("conv", None, conv))
+                far = abs(ls - day0) > 86400 * 2
                 for (how, val, obj) in srcs:
-                    for u in (pick(rnd, UNITS, 3) if q else UNITS):
+                    for u in ((["week"] + pick(rnd, UNITS, 1) if far else pick(rnd, UNITS, 3)) if q else UNITS):
                         n += 1
                         for opn in ("start_of", "end_of"):
                             args = {"unit": u, "cfg": cfg(n if u == "week" else 0), "how": how}
@@ -76,6 +79,13 @@ def drive(ctx):
                 w[2] = 28
         zr = (UTCZ, NAIVE, {"n": "", "fo": rnd.randrange(-86399, 86400)})[k % 3]
         u = UNITS[k % 9]
+        # values inside the first / last second of a day with a sub-second part
+        if k % 4 == 0:
+            for tm in ([0, 0, 0, 500000], [0, 0, 0, 1], [23, 59, 59, 1], [0, 0, 59, 999999], [0, 59, 0, 7]):
+                wv = w[:3] + tm
+                for opn in ("start_of", "end_of"):
+                    ctx.emit(opn, {"unit": UNITS[(k // 4) % 9], "cfg": cfg(k), "how": "raw0"}, [mk_dt(zr, wv, 0)])
+                    ctx.emit(opn, {"unit": "day", "cfg": cfg(0), "how": "raw0"}, [mk_dt(zr, wv, 0)])
         # the two setters are called in either order, or only one of them (the other bound keeps its default)
         order = ("se", "es", "s", "e", "SE", "ES")[k % 6]
 
